@@ -28,6 +28,8 @@ BoilerLines(s) ==
     [] s = "heading"   -> LCs(4)       \* "// # Title" heading
     [] s = "indented"  -> LCs(5)       \* tab- and space-indented lines inside // comments
     [] s = "dashlist"  -> LCs(4)       \* "- " list items
+    [] s = "crlf"      -> LCs(2)       \* CRLF line endings
+    [] s = "bom"       -> LCs(2)       \* the file starts with a UTF-8 byte order mark
     [] s = "trailsp"   -> LCs(2)       \* lines ending in blanks / a tab
     \* block comments a "where does the header end" heuristic stumbles over
     [] s = "k8sblock"   -> <<L("bopen"), L("bmid"), L("bmid"), L("bmid"), L("bmid"), L("bclose")>>   \* inner blank line (kubernetes-style)
